@@ -328,6 +328,26 @@ class Normalizer(ast.NodeTransformer):
                                                     type_comment=None), node)
                 ast.fix_missing_locations(node)
                 self.count += 1
+        # N24b: (t1, t2) = (E(x) for x in ITER)   (ITER not a literal)   ->   __g1, __g2 = ITER ; t1, t2 = E(__g1), E(__g2)
+        if len(node.targets) == 1 and isinstance(node.targets[0], (ast.Tuple, ast.List)) \
+                and isinstance(node.value, (ast.GeneratorExp, ast.ListComp)) and len(node.value.generators) == 1 \
+                and 1 < len(node.targets[0].elts) <= MAX_ELTS and all(isinstance(t, ast.Name) for t in node.targets[0].elts):
+            g = node.value.generators[0]
+            if isinstance(g.target, ast.Name) and not g.ifs and not g.is_async \
+                    and not isinstance(g.iter, (ast.Tuple, ast.List)) \
+                    and not any(isinstance(x, (ast.NamedExpr, ast.Lambda, ast.Yield, ast.Await)) for x in ast.walk(node.value.elt)):
+                self.count += 1
+                k = len(node.targets[0].elts)
+                tmp = [f'__g{self.count}_{i}' for i in range(k)]
+                first = ast.Assign(targets=[ast.Tuple(elts=[ast.Name(id=t, ctx=ast.Store()) for t in tmp], ctx=ast.Store())],
+                                   value=g.iter, type_comment=None)
+                vals = [_Subst({g.target.id: ast.Name(id=t, ctx=ast.Load())}).visit(copy.deepcopy(node.value.elt)) for t in tmp]
+                second = ast.Assign(targets=node.targets, value=ast.Tuple(elts=vals, ctx=ast.Load()), type_comment=None)
+                for st in (first, second):
+                    ast.copy_location(st, node)
+                    ast.fix_missing_locations(st)
+                r2 = self.visit_Assign(second)
+                return [first] + (r2 if isinstance(r2, list) else [r2])
         if len(node.targets) == 1 and isinstance(node.targets[0], (ast.Tuple, ast.List)) \
                 and isinstance(node.value, (ast.Tuple, ast.List)) \
                 and len(node.targets[0].elts) == len(node.value.elts) \
@@ -1282,6 +1302,75 @@ def _append_loops(tree) -> int:
 
 
 
+# ---------------------------------------------------------------------------------------------- N27
+def _filtered_literal_lists(tree) -> int:
+    """L = [t for t in (A, B) if C(t)]  used only as `if not L` / `if L` tests and `for v in L:` loops
+         ->   tests become  C(A) or C(B),  loops become  `for v in (A, B): if C(v): BODY`
+    (the selection is re-made where it is used; accepted only when the loop body changes nothing C reads except
+    through the loop variable itself, so an element's test is not affected by an earlier element's body)"""
+    count = 0
+    for fn in ast.walk(tree):
+        if not isinstance(fn, (ast.FunctionDef, ast.AsyncFunctionDef)):
+            continue
+        for i, st in enumerate(list(fn.body)):
+            if not (isinstance(st, ast.Assign) and len(st.targets) == 1 and isinstance(st.targets[0], ast.Name)
+                    and isinstance(st.value, ast.ListComp) and len(st.value.generators) == 1):
+                continue
+            g = st.value.generators[0]
+            L = st.targets[0].id
+            if not (isinstance(g.target, ast.Name) and isinstance(st.value.elt, ast.Name) and st.value.elt.id == g.target.id
+                    and isinstance(g.iter, (ast.Tuple, ast.List)) and 0 < len(g.iter.elts) <= MAX_ELTS and len(g.ifs) == 1
+                    and all(_simple(e) or (isinstance(e, ast.Call) and isinstance(e.func, ast.Name) and e.func.id == 'getattr')
+                            for e in g.iter.elts)):
+                continue
+            stores = sum(1 for x in ast.walk(fn) if isinstance(x, ast.Name) and x.id == L and isinstance(x.ctx, (ast.Store, ast.Del)))
+            if stores != 1:
+                continue
+            uses = [x for x in ast.walk(fn) if isinstance(x, ast.Name) and x.id == L and isinstance(x.ctx, ast.Load)]
+            parent = {}
+            for x in ast.walk(fn):
+                for ch in ast.iter_child_nodes(x):
+                    parent[id(ch)] = x
+            ok = True
+            plan = []
+            cond_names = {x.id for x in ast.walk(g.ifs[0]) if isinstance(x, ast.Name)} - {g.target.id}
+            for u in uses:
+                p_ = parent.get(id(u))
+                if isinstance(p_, ast.UnaryOp) and isinstance(p_.op, ast.Not) and isinstance(parent.get(id(p_)), ast.If) \
+                        and parent[id(p_)].test is p_:
+                    plan.append(('not', p_, parent[id(p_)]))
+                elif isinstance(p_, ast.If) and p_.test is u:
+                    plan.append(('truth', u, p_))
+                elif isinstance(p_, ast.For) and p_.iter is u and isinstance(p_.target, ast.Name) and not p_.orelse:
+                    written = {x.id for b in p_.body for x in ast.walk(b) if isinstance(x, ast.Name)
+                               and isinstance(x.ctx, (ast.Store, ast.Del))}
+                    if written & cond_names:
+                        ok = False
+                    plan.append(('for', p_, None))
+                else:
+                    ok = False
+            if not ok or not plan:
+                continue
+
+            def cond_for(e):
+                return _Subst({g.target.id: e}).visit(copy.deepcopy(g.ifs[0]))
+            anyc = ast.BoolOp(op=ast.Or(), values=[cond_for(copy.deepcopy(e)) for e in g.iter.elts]) if len(g.iter.elts) > 1 \
+                else cond_for(copy.deepcopy(g.iter.elts[0]))
+            for kind, node_, owner in plan:
+                if kind == 'not':
+                    owner.test = ast.UnaryOp(op=ast.Not(), operand=copy.deepcopy(anyc))
+                elif kind == 'truth':
+                    owner.test = copy.deepcopy(anyc)
+                else:
+                    v = node_.target.id
+                    node_.iter = copy.deepcopy(g.iter)
+                    node_.body = [ast.If(test=cond_for(ast.Name(id=v, ctx=ast.Load())), body=node_.body, orelse=[])]
+            fn.body.remove(st)
+            ast.fix_missing_locations(fn)
+            count += 1
+    return count
+
+
 # ---------------------------------------------------------------------------------------------- N23
 def _next_loops(tree) -> int:
     """x = next(IT, None) ; while x: BODY ; x = next(IT, None)     ->     for x in IT: BODY
@@ -1511,6 +1600,7 @@ def normalize(tree: ast.Module, inline: bool = True) -> ast.Module:
     if inline:
         from .inline import inline_helpers
         ninl = inline_helpers(tree)
+    ninl += _filtered_literal_lists(tree)
     nfold = _fold_named_constants(tree)
     nfold += _unfold_partials(tree)
     nfold += _fold_literal_zip(tree)
